@@ -230,6 +230,14 @@ func (a *argMaker) args(fname string, ft reflect.Type, skipRecv bool, items []je
 	return out
 }
 
+func valuesOf(items []jen.Code) []reflect.Value {
+	out := make([]reflect.Value, len(items))
+	for i, it := range items {
+		out[i] = codeValue(it)
+	}
+	return out
+}
+
 func codeValue(c jen.Code) reflect.Value {
 	if c == nil {
 		return reflect.Zero(tCode)
@@ -450,6 +458,96 @@ func c14Construct(r *mon.Run, ai *apiInfo, name string, rep int64) {
 			}
 		} else {
 			r.Violate("form-missing", c, "%s has no variadic counterpart %s", name, baseName)
+		}
+	}
+	// the caller's variadic slice is the caller's: a construct must neither write into its spare capacity nor
+	// keep depending on it (two statements built from the same slice, each continued by another token, must
+	// both render as if built from private copies)
+	if ft.IsVariadic() && ft.In(ft.NumIn()-1).Elem() == tCode && ft.NumIn() == 1 {
+		a8, items8 := mk()
+		_ = a8
+		n := len(items8)
+		backing := make([]jen.Code, n, n+4)
+		copy(backing, items8)
+		sentinel := jen.Id("sentinelQ")
+		full := backing[:n+1]
+		full[n] = sentinel
+		callWith := func(tail string) (*jen.Statement, string) {
+			var st *jen.Statement
+			p, what := mon.Guard(func() {
+				st = fn.Call([]reflect.Value{reflect.ValueOf(backing)}[0:1])[0].Interface().(*jen.Statement)
+				st.Id(tail)
+			})
+			if p {
+				return nil, what
+			}
+			return st, ""
+		}
+		// CallSlice semantics: pass the slice itself as the variadic argument
+		callSlice := func(tail string) (*jen.Statement, string) {
+			var st *jen.Statement
+			p, what := mon.Guard(func() {
+				st = fn.CallSlice([]reflect.Value{reflect.ValueOf(backing)})[0].Interface().(*jen.Statement)
+				st.Id(tail)
+			})
+			if p {
+				return nil, what
+			}
+			return st, ""
+		}
+		_ = callWith
+		s1, p1 := callSlice("tail1Q")
+		s2, p2 := callSlice("tail2Q")
+		if p1 == "" && p2 == "" {
+			if full[n] != sentinel {
+				r.Violate("variadic-slice-written", c, "%s(items...) wrote into the spare capacity of the caller's slice", name)
+			}
+			a9, items9 := mk()
+			_ = a9
+			ref1 := fn.Call(valuesOf(items9))[0].Interface().(*jen.Statement).Id("tail1Q")
+			got1, _ := rawFile(s1)
+			exp1, _ := rawFile(ref1)
+			if got1 != exp1 {
+				r.Violate("variadic-slice-aliased", c, "%s(items...).Id(tail1) renders\n%s\nafter a second %s(items...).Id(tail2) was built from the same slice; a private build renders\n%s", name, got1, name, exp1)
+			}
+			_ = s2
+		}
+	}
+	// a callback may also add to the group that encloses the construct: what it adds comes first, because the
+	// callback runs inside the constructing call, before the Group form appends the new statement
+	if ft.NumIn() > 0 && ft.In(ft.NumIn()-1) == tGroupFunc && !isDict {
+		build := func(viaAdd bool) (string, string) {
+			var p string
+			blk := jen.BlockFunc(func(outer *jen.Group) {
+				outer.Id("firstQ")
+				a, items := mk()
+				args := a.args(name, ft, false, items)
+				// replace the callback by one that also adds to the enclosing group
+				args[len(args)-1] = reflect.ValueOf(func(g *jen.Group) {
+					outer.Id("fromCallbackQ")
+					for _, it := range items {
+						g.Add(it)
+					}
+				})
+				var pp bool
+				var what string
+				if viaAdd {
+					pp, what = mon.Guard(func() { outer.Add(fn.Call(args)[0].Interface().(*jen.Statement)) })
+				} else {
+					pp, what = mon.Guard(func() { gm.Func.Call(append([]reflect.Value{reflect.ValueOf(outer)}, args...)) })
+				}
+				if pp {
+					p = what
+				}
+				outer.Id("lastQ")
+			})
+			out, _ := rawFile(blk)
+			return out, p
+		}
+		got, pg := build(false)
+		exp, pe := build(true)
+		if pg == "" && pe == "" && got != exp {
+			r.Violate("group-form-differs", c, "%s: when the callback also adds to the enclosing group, g.%s(cb) renders\n%s\nbut g.Add(%s(cb)) renders\n%s", name, name, got, name, exp)
 		}
 	}
 	// GoString, Render and RenderWithFile with a fresh File agree
